@@ -68,8 +68,8 @@ CHECKS["C07"] = dict(
     technique="abstract interpretation of MIR with DF specialisation and affine address/pointer forms; memory-access and subtraction events classified by pointer dependency; production-level REP protocol with CX classes and ZF partitioning; CFG rule on the driver's REPEAT arm",
     text="Decides: source element at DS:SI and destination element at ES:DI (exact forms, required segment dependency); SI/DI step +/-size mod 2^16 "
          "under DF; word elements use cells p,p+1 in both directions; who may write memory/AL,AX/flags; CMPS/SCAS operand roles; REP protocol (nothing "
-         "executes with CX=0, CX-1 and REPEAT otherwise, ZF test of REPE/REPNE); driver re-issues the same index on REPEAT. Does NOT decide the comparison's "
-         "flag values (C01's limitation) nor overlapping source/destination.",
+         "executes with CX=0, CX-1 and REPEAT otherwise, ZF test of REPE/REPNE); driver re-issues the same index on REPEAT; CF, AF, OF, SF, ZF of CMPS/SCAS as the CMP predicates over the two "
+         "elements (R9, closed forms over the memory cells and AX). Does NOT decide PF as a value nor overlapping source/destination.",
     design="DESIGN.md §6 C07")
 
 CHECKS["C09"] = dict(
